@@ -238,6 +238,7 @@ pub fn build<K: GK>(g: &G, env: &Env, cx: &Ctx) -> K {
                 Rel::First => GoalCast::cast_into(rel::first::first::<SimUser, Eng, K>(arg(0), arg(1))),
                 Rel::Rest => GoalCast::cast_into(rel::rest::rest::<SimUser, Eng, K>(arg(0), arg(1))),
                 Rel::Empty => GoalCast::cast_into(rel::empty::empty::<SimUser, Eng, K>(arg(0))),
+                Rel::Distinct => GoalCast::cast_into(rel::distinct::distinct::<SimUser, Eng, K>(arg(0))),
                 Rel::Always => K::from_bfs(rel::always::always::<SimUser, Eng>()),
                 Rel::Never => K::from_bfs(rel::never::never::<SimUser, Eng>()),
                 Rel::Succeed => GoalCast::cast_into(rel::succeed::succeed::<SimUser, Eng, K>()),
